@@ -163,6 +163,7 @@ func txQueue(tptx gtypes.Tx, apptxQ [][]appTx, i, j int) error {
 	}
 
 	atomic.StoreInt32(&cur.status, appTxStatusInit)
+	verifhook.Gate("evm.txQueue.afterInit")
 	if j == 0 {
 		apptxQ[i][j].oribys = tptx
 	}
